@@ -2,6 +2,7 @@ import XixiKV.Proofs.EnginePolicy
 import XixiKV.Properties.C01
 import XixiKV.Properties.C02
 import XixiKV.Properties.C05
+import XixiKV.Proofs.TransEq
 /-!
 # C14 — results do not depend on index type, shard count, I/O back-end; file-size limit and sync
 # strategy change only file layout and flush timing
@@ -536,5 +537,11 @@ private def files (s : St) (d : String) : List (Nat × List UInt8 × Nat) :=
 
 /-! ## axioms -/
 
+
+/-- shard-count normalisation: `nextPowerOfTwo` as TRANSLATED from /repo's current source
+    (`Generated/Trans.lean`) is the model's function for every requested shard count ≥ 1 -/
+theorem C14_translated_nextPowerOfTwo (cap : Nat) (h1 : 1 ≤ cap) (h2 : cap < 2^62) :
+    Generated.Trans.index.nextPowerOfTwo (cap : Int) = (Index.nextPowerOfTwo cap : Int) :=
+  TransEq.trans_nextPowerOfTwo_eq cap h1 h2
 
 end XixiKV.C14
